@@ -692,3 +692,22 @@ Proof.
   split; [reflexivity|]. f_equal. apply Qcnot_lt_le in Hn.
   apply Qcle_antisym; [exact Hn|]. apply (proj1 (fit_sign _ _ E)). apply Qclt_le_weak. apply Qcmul_pos; assumption.
 Qed.
+
+(* ---- the opening position is a value of the arithmetic ---- *)
+Lemma init_fits_none A : init_fits A None.
+Proof. intros i E; discriminate E. Qed.
+Lemma init_fits_exact init : init_fits exact init.
+Proof. intros i _. rewrite all_after_exact. f_equal. ring. Qed.
+(* rust_decimal: an opening balance that is a decimal of at most 28 places
+   with a 96-bit mantissa (fit returns it unchanged) passes *)
+Lemma init_fits_dec init :
+  (forall i, init = Some i -> fit (s_sh i) = Some (s_sh i)) -> init_fits dec init.
+Proof.
+  intros H i E. specialize (H i E). unfold all_after.
+  destruct (Qceqb_spec (s_sh i) 0) as [E0|_]; [rewrite E0; reflexivity|].
+  cbn [a_sub a_add dec].
+  assert (E1 : (0 - 0 : Qc) = 0) by ring. rewrite E1.
+  assert (E2 : fit 0 = Some 0) by (apply (fit_exact_int 0); vm_compute; discriminate).
+  unfold fit_res at 1. rewrite E2. cbn [bind].
+  assert (E3 : 0 + s_sh i = s_sh i) by ring. rewrite E3. unfold fit_res. rewrite H. reflexivity.
+Qed.
